@@ -17,8 +17,8 @@
    Partial display mode (no alternate buffer; display origin = terminal row 0, lines below blank, as many
    terminal rows as canvas rows): any history of draws, clear() and frames abandoned by a mid-draw SIGWINCH.
    Zero-width (combining) characters and C0 control characters are covered except as the first character of
-   a run (a control character under a narrow encoding is one column wide and may be first).  NOT proved
-   (statement kept, oracle only): runs starting with a zero-column character; partial display with a display origin below row 0 and size changes in
+   a run (a control character under a narrow encoding is one column wide and may be first).  REFUTED
+   (statement kept, witness): runs starting with a zero-column character / without columns; partial display with a display origin below row 0 and size changes in
    partial display mode (oracle only). *)
 From Coq Require Import ZArith List Bool Lia ZifyBool.
 Import ListNotations.
@@ -26,6 +26,8 @@ From Urwid Require Import PyBase TermRef DrawScreen HtmlGen PaintSpec TermRefFac
   DrawTextProofs HtmlGenProofs.
 Open Scope Z_scope.
 
+(* [spec_to_sgr] is Screen._attrspec_to_escape TRANSLATED from the source on every run
+   (Gen/attrspec_escape_gen.v): a change of a threshold or an offset there breaks this proof. *)
 (* --- the SGR parameter list urwid sends for an AttrSpec means, to the terminal, exactly the visual
        attribute of that AttrSpec, whatever attribute was selected before: every AttrSpec with basic
        colour numbers in 0..15, any high/true colour values, every flag combination, both
@@ -110,8 +112,8 @@ Print Assumptions redraw_same_canvas_writes_nothing.
        characters, any attributes) with or without cursor, whenever draw_screen does
        not raise, the spans carry exactly the canvas text row by row (control characters as '?'), at
        most one span has its colours swapped, it is a single character, and none without a cursor.
-       (HTML escaping and the colour strings are outside the model: the harness unescapes the real
-       output and compares colours through AttrSpec.get_rgb_values.) --- *)
+       (The colour strings are outside the model: the harness compares them through
+       AttrSpec.get_rgb_values; the escaping is in the model, see html_markup_reads_back.) --- *)
 Theorem html_exact :
   forall maxrow rows cursor out,
     html_draw maxrow rows cursor = Ok out ->
@@ -147,6 +149,15 @@ Theorem draw_paints_partial :
 Proof. exact draw_paints_partial_lemma. Qed.
 Print Assumptions draw_paints_partial.
 
+(* relative cursor addressing of partial display mode ("\b", CR, CUU/CUD n, CUF n with the n < 1 cases
+   omitted), from the row the Screen believes the cursor is on: it lands on (x, y), pending wrap cleared *)
+Theorem partial_cursor_addressing :
+  forall t cy x y,
+    t_y t = cy -> 0 <= cy < t_rows t -> 0 <= y < t_rows t -> 0 <= x < t_cols t ->
+    run t (set_cursor_position true cy x y) = set_pos t x y false.
+Proof. exact cursor_partial_ok. Qed.
+Print Assumptions partial_cursor_addressing.
+
 (* every history of draws in partial display mode from a fresh terminal; clear() keeps the agreement *)
 Theorem draws_paint_partial : draws_paint_statement true PaintsPartial.
 Proof. exact draws_paint_partial_lemma. Qed.
@@ -171,6 +182,29 @@ Theorem partial_clear_keeps_sync : forall c s t, SyncP c s t -> SyncP c (clear s
 Proof. exact syncp_clear. Qed.
 Print Assumptions partial_clear_keeps_sync.
 
+(* the markup: html.escape of every span text ([span_markup]); reading the emitted markup of a row back
+   (the five entities of html.escape, anything else literally) gives exactly the code points of the canvas
+   row - for every canvas *)
+Theorem html_markup_reads_back :
+  forall maxrow rows cursor out,
+    html_draw maxrow rows cursor = Ok out ->
+    map (fun spans => read_markup (row_markup spans)) out = map (fun row => map fst (row_text row)) rows.
+Proof. exact html_markup_reads_back_lemma. Qed.
+Print Assumptions html_markup_reads_back.
+
+(* with the canvas cursor on a cell of the canvas: exactly one span is highlighted, it holds one character,
+   and that character is the one covering the cursor column of the cursor row ([pre] is the text in
+   front of it) *)
+Theorem html_cursor_cell :
+  forall maxrow rows cx cy out row,
+    html_draw maxrow rows (Some (cx, cy)) = Ok out ->
+    nthz rows cy = Some row -> nonneg_widths (row_text row) -> 0 <= cx < calc_width (row_text row) ->
+    total_swapped out = 1 /\
+    exists spans pre c post, nthz out cy = Some spans /\ row_text row = pre ++ c :: post /\
+       one_highlight spans pre c post /\ calc_width pre <= cx < calc_width pre + snd c.
+Proof. exact html_cursor_cell_lemma. Qed.
+Print Assumptions html_cursor_cell.
+
 (* --- combining (zero-width) characters.  The reference terminal joins a zero-width character to the
        character before the cursor (the last one written when the cursor is in the pending-wrap state) and
        does not advance; with nothing before the cursor on the line it is dropped.  The canvases of all
@@ -187,13 +221,15 @@ Print Assumptions row_cells_is_threaded.
        are painted as '?'; [run_cells] is defined on the text that is sent ([out_text]).  A run in the
        IBMPC charset "U" is sent untranslated and must not contain them. --- *)
 
-(* --- NOT PROVED (statement [draw_paints_any_text_full] in Model/PaintSpec.v, decided by the
-       correspondence and the oracle only): draw_paints for runs that START with a character taking no
-       column (a combining character or, under UTF-8, a C0 control character) and runs without columns -
-       there the combining characters reach into the run before and the row is no longer the
-       concatenation of its runs.  Before the repairs ca038f3 / cfc4146 this statement was refuted by a
-       witness (bottom row, a run holding only a combining character), kept in
-       corpus/C04/06_combining_characters.json and 07_resync_round3.json. --- *)
+(* --- REFUTED of the code as it is (statement [draw_paints_any_text_full] in Model/PaintSpec.v): draw_paints
+       for runs that START with a character taking no column and for runs without columns.  The witness
+       of the first refutation (a zero-column run BEFORE the last character, repaired by ca038f3) is now
+       painted correctly; this witness is a bottom row whose LAST run holds no columns: _last_row takes it
+       as Z, and the combining character joins the character before Y (corpus/C04/08_*.json, known finding
+       C04-bottom-row-last-run-without-columns). --- *)
+Theorem draw_paints_any_text_refuted : ~ draw_paints_any_text_full.
+Proof. exact any_text_refuted_lemma. Qed.
+Print Assumptions draw_paints_any_text_refuted.
 
 (* --- non-vacuity --- *)
 Definition ex_cfg : cfg :=
@@ -288,3 +324,19 @@ Example ex_control_characters :
   fst (emit_run ex_cfg (mkRs 0 false 0) (0, 0, [(97, 1); (1, 0); (98, 1)])) = [TCh 97 1; TCh 98 1] /\
   fst (emit_run w_cfg (mkRs 0 false 0) (0, 0, [(97, 1); (1, 1); (98, 1)])) = [TCh 97 1; TCh 63 1; TCh 98 1].
 Proof. vm_compute. split; reflexivity. Qed.
+
+(* the charset shift state does not leak from one frame into the next: under a narrow encoding [Sync] does
+   not constrain SO/SI at all ([draw_paints] holds from either state) because the first run of every frame
+   selects its charset; here a terminal left in the line-drawing charset paints plain text as plain text *)
+Example ex_shift_state_does_not_leak :
+  Sync w_cfg (init_scr false) (set_g1 (set_so (new_term 2 1) true) true) /\
+  match draw_screen w_cfg (init_scr false) 2 1 [[(0, 0, [(97, 1); (98, 1)])]] None false false with
+  | Ok (toks, _) => map c_cs (get_row (t_grid (run (set_g1 (set_so (new_term 2 1) true) true) toks)) 0) = [0; 0]
+  | Err _ => False
+  end.
+Proof.
+  split; [|vm_compute; reflexivity].
+  unfold Sync, term_ok. cbn.
+  repeat match goal with |- _ /\ _ => split end; try reflexivity; try discriminate; try lia;
+    try (intros; congruence); repeat constructor.
+Qed.
